@@ -139,7 +139,7 @@ fn run_case(rng: &mut Rng, mode: &str, release: bool) -> String {
     let n = match rng.below(6) { 0 => rng.range(0, 4) as usize, 1 => rng.range(5, 40) as usize, 2 => rng.range(40, 512) as usize, _ => *rng.pick(&SIZES) };
     let obj = rng.bytes(n);
     let tn = if rng.chance(3, 4) && SIZES.contains(&n) { n } else { *rng.pick(&SIZES) };
-    let op = if mode == "adv" { rng.below(5) } else { match rng.below(10) { 0 => 1, 1 => 2, 2 => 3, 3 => 4, _ => 0 } };
+    let op = if mode == "adv" { rng.below(6) } else { match rng.below(10) { 0 => 1, 1 => 2, 2 => 3, 3 => 4, _ => 0 } };
     // 0 read, 1 write, 2 write_array, 3 read_array, 4 sdo_info list / quantities
     let kind = if mode == "adv" { let k = rng.below(19); 100 + if k >= 16 { 11 } else if k >= 14 { 13 } else { k } } else { rng.below(12) };
     // faithful kinds: 0..5 plain, 6 abort, 7 emergency, 8 wrong object, 9 stale data first, 10 segment command 3, 11 first data in initiate response
@@ -275,6 +275,8 @@ fn run_case(rng: &mut Rng, mode: &str, release: bool) -> String {
                 1 => { match wlen { 1 => sd.sdo_write(idx, sub, wr_vals2.first().copied().unwrap_or(7) as u8).await?, 2 => sd.sdo_write(idx, sub, wr_vals2.first().copied().unwrap_or(7) as u16).await?, _ => sd.sdo_write(idx, sub, wr_vals2.first().copied().unwrap_or(7)).await? } }
                 2 => { sd.sdo_write_array(idx, &wr_vals2).await?; }
                 3 => { let v = sd.sdo_read_array::<u16, 6>(idx).await?; out.extend(v.iter().map(|b| *b as i64)); }
+                // a bounded variable-length destination: whatever the device announces, at most 8 bytes (totality only, no model)
+                5 => { let v = sd.sdo_read::<heapless::Vec<u8, 8>>(idx, sub).await?; out.push(v.len() as i64); out.extend(v.iter().map(|b| *b as i64)); }
                 _ => {
                     if idx & 1 == 0 {
                         let v = sd.sdo_info_object_description_list(ethercrab::ObjectDescriptionListQuery::All).await?;
